@@ -1,32 +1,63 @@
 """The exchanges of the generated client with the generated server (Call.tla x VT resources), shared by the properties
-that read something off them: C02 (fidelity), C03 (envelopes), C15 (request path of generated clients)."""
+that read something off them: C02 (fidelity), C03 (envelopes), C07 (wire clauses), C15 (request path of generated
+clients), C16 (batch correlation).  They run on bindings from BOTH generators: the v2 generator's and the root
+generator's (minus the resources the root generation cannot compile: lib.ROOT_SKIP_RESOURCES)."""
 import json, os
 import lib
 
+GENS = ("v2", "root")
 
-def exchanges(scr, sdir, prefix):
-    """Runs MC_Call + the e2e harness; returns (violations with that key prefix, harness stats, TLC result)."""
+
+def e2e_runs(scr, call_rows, extra_args=(), gens=GENS, tag="calls"):
+    """Builds the e2e harness per generation and runs it on the Call.tla rows.  Yields (gen, objects, rekey)."""
+    skip = lib.ROOT_SKIP_RESOURCES.split(",")
+    for gen in gens:
+        rows = call_rows if gen == "v2" else [x for x in call_rows if not any('"%s"' % r in x for r in skip)]
+        rf = os.path.join(scr.path, "%s-%s.ndjson" % (tag, gen))
+        with open(rf, "w") as f:
+            for x in rows:
+                f.write(x + "\n")
+
+        def extra(d, gen=gen):
+            if gen == "v2":
+                lib.vt_bindings(scr, d)
+            else:
+                lib.vt_bindings_root(scr, d, with_resources=True)
+            os.remove(os.path.join(d, "registry.go"))
+        binp = lib.go_module(scr, "e2e", gen, extra_src=extra)
+        code, out, err, wall = lib.run_bin(binp, ["-in", rf] + list(extra_args), timeout=3000, cwd=os.path.dirname(binp))
+        if code != 0:
+            raise lib.Broken("e2e harness (%s) failed: %s" % (gen, err[-3000:]))
+        objs = []
+        for line in out.splitlines():
+            o = json.loads(line)
+            if gen == "root" and o["kind"] == "violation":
+                if "/no-such-resource/" in o["key"] and any(o["key"].endswith("/" + r) for r in skip):
+                    continue        # left out on purpose
+                prop = o["key"].split("/", 1)[0]
+                o["key"] = o["key"].replace(prop + "/", prop + "/root/", 1)
+                o["what"] = "[root generation] " + o["what"]
+                o["case"] = dict(o.get("case") or {}, gen="root")
+            objs.append(o)
+        yield gen, objs
+
+
+def call_rows(sdir):
     r = lib.run_tlc(sdir, "MC_Call.tla", "MC_Call.cfg", workers=8, timeout=1800)
     if not r.ok:
-        raise lib.Broken("Call.tla: %s violated" % r.violated)
-    rows = sorted(set(json.loads(x) for x in r.printed))
-    rf = os.path.join(scr.path, "calls.ndjson")
-    with open(rf, "w") as f:
-        for x in rows:
-            f.write(x + "\n")
+        raise lib.Broken("Call.tla: %s violated -- the client's request is not routed back to the called method by the protocol table" % r.violated)
+    return r, sorted(set(json.loads(x) for x in r.printed))
 
-    def extra(d):
-        lib.vt_bindings(scr, d)
-        os.remove(os.path.join(d, "registry.go"))
-    binp = lib.go_module(scr, "e2e", "v2", extra_src=extra)
-    code, out, err, wall = lib.run_bin(binp, ["-in", rf], timeout=3000, cwd=os.path.dirname(binp))
-    if code != 0:
-        raise lib.Broken("e2e harness failed: %s" % err[-3000:])
+
+def exchanges(scr, sdir, prefix):
+    """Runs MC_Call + the e2e harness; returns (violations with that key prefix, harness stats summed, TLC result)."""
+    r, rows = call_rows(sdir)
     viol, stats = [], {}
-    for line in out.splitlines():
-        o = json.loads(line)
-        if o["kind"] == "violation" and o["key"].startswith(prefix):
-            viol.append(o)
-        elif o["kind"] == "stats":
-            stats = o["stats"]
+    for gen, objs in e2e_runs(scr, rows):
+        for o in objs:
+            if o["kind"] == "violation" and o["key"].startswith(prefix):
+                viol.append(o)
+            elif o["kind"] == "stats":
+                for k, v in o["stats"].items():
+                    stats[k] = stats.get(k, 0) + v
     return viol, stats, r
